@@ -115,16 +115,17 @@ def r3_1(ctx, R, inc, dec, free_fn):
             det = "data=%s vtable=%s (borrowed waker vtable %s)" % (expr_str(data), expr_str(e[2][1]), expr_str(borrowed_vt) if borrowed_vt else None)
     ctx.ob("R3.1", vt["clone"], "clone:same-data-same-vtable", ok, d_loc(vt["clone"]), det)
 
-    releasers = [("vt[drop]", vt["drop"])]
-    for i in ctx.facts.impls:
-        if i["trait"] == "core::ops::Drop":
-            for it in i["items"]:
-                db = ctx.facts.bodies.get(it)
-                if db is not None and reaches(ctx.facts, db, r"core::sync::atomic::Atomic.*::fetch_sub$", 2):
-                    releasers.append(("Drop:" + i["self_ty"], db))
+    # release sites: every crate function that calls the decrement function directly
+    releasers = []
+    for b in ctx.facts.fn_bodies():
+        if any(R.calls_to_body(b, d_) for d_ in dec):
+            nm = "vt[drop]" if b.path == vt["drop"].path else ("vt[wake]" if b.path == vt["wake"].path else b.path.split("::")[-1] + ":" + b.path.split(" as ")[0].lstrip("<"))
+            releasers.append((nm, b))
     ctx.floor("R3.1", "release-sites", len(releasers), 2)
+    ctx.ob("R3.1", vt["drop"], "vt[drop]-is-a-release-site", any(b.path == vt["drop"].path for _, b in releasers) or
+           set(count_calls_on_paths(ctx, vt["drop"], dec)[0]) == {1}, d_loc(vt["drop"]))
     for name, b in releasers:
-        cdd, dsites = count_calls_on_paths(ctx, b, dec)
+        cdd, dsites = count_calls_on_paths(ctx, b, dec, depth=0)
         cii, _ = count_calls_on_paths(ctx, b, inc)
         ctx.ob("R3.1", b, "%s:-1-exactly-once" % name, bool(cdd) and set(cdd) == {1} and set(cii) <= {0}, d_loc(b),
                "dec per path %s inc per path %s" % (cdd, cii))
@@ -136,7 +137,6 @@ def r3_1(ctx, R, inc, dec, free_fn):
             tts = true_edge_targets(ctx, b, decsites[0])
             fb = frees[0][0]
             ok = any(b.dominates(t, fb) and len(b.pred[t]) == 1 for t in tts)
-            # and free on every path through the true edge
             ok = ok and all(b.must_pass(t, b.returns(), [fb]) for t in tts)
             det += "; free dominated by dec==true edge and must-pass: %s" % ok
         ctx.ob("R3.1", b, "%s:free-iff-last" % name, ok, d_loc(b), det)
@@ -145,11 +145,10 @@ def r3_1(ctx, R, inc, dec, free_fn):
     ctx.ob("R3.1", vt["wake_by_ref"], "wake_by_ref:no-count-change", set(wi) <= {0} and set(wd) <= {0}, d_loc(vt["wake_by_ref"]),
            "inc %s dec %s" % (wi, wd))
     w = vt["wake"]
-    c1 = R.calls_to_body(w, vt["wake_by_ref"])
-    c2 = R.calls_to_body(w, vt["drop"])
     kd, _ = count_calls_on_paths(ctx, w, dec)
-    ok = len(c1) == 1 and len(c2) == 1 and w.dominates(c1[0][0], c2[0][0]) and set(kd) == {1}
-    ctx.ob("R3.1", w, "wake=wake_by_ref;drop", ok, d_loc(w), "dec per path %s" % kd)
+    ki, _ = count_calls_on_paths(ctx, w, inc)
+    ctx.ob("R3.1", w, "wake(by value):-1-exactly-once-on-every-path", bool(kd) and set(kd) == {1} and set(ki) <= {0}, d_loc(w),
+           "dec per path %s inc per path %s" % (kd, ki))
     # constructor stores 1
     ctor = alloc_fn(ctx)
     n1 = 0
@@ -293,9 +292,8 @@ def r3_4(ctx, R, dec, free_fns, layout_fn):
     deallocers = [b.path for b in ctx.facts.fn_bodies() if direct_sites(b, r"^alloc::alloc::dealloc$")]
     ctx.ob("R3.4", "<crate>", "who-may-dealloc", deallocers == [free.path], "", str(deallocers))
     callers = sorted(b.path for b, _ in R.callers_of(free))
-    rel = sorted({R.vt["drop"].path} | {it for i in ctx.facts.impls if i["trait"] == "core::ops::Drop" for it in i["items"]
-                                        if it in ctx.facts.bodies and reaches(ctx.facts, ctx.facts.bodies[it], r"fetch_sub$", 2)})
-    ctx.ob("R3.4", "<crate>", "who-may-free", callers == rel, "", "callers %s release sites %s" % (callers, rel))
+    rel = sorted(b.path for b in ctx.facts.fn_bodies() if any(R.calls_to_body(b, d_) for d_ in dec))
+    ctx.ob("R3.4", "<crate>", "who-may-free", set(callers) <= set(rel) and bool(callers), "", "callers %s release sites %s" % (callers, rel))
 
 
 def _is_header_len(ctx, ctor, field):
@@ -533,6 +531,53 @@ def r3_8(ctx, R):
             ctx.ob("R3.8", b, "mark-index-source@%s" % _site_label(b, bb), src is not None, b.loc(bb), "%s: %s" % (src, expr_str(idx)))
 
 
+def r3_9(ctx, R):
+    ctx.rule("R3.9", "lock discipline of the per-slot flag: every projection of a SpinMutex-typed field in the crate is a "
+                     "shared borrow that flows only into SpinMutex::lock (no get_mut / into_inner / try_lock / raw access: the "
+                     "slot is shared with outstanding wakers on other threads even while the collection is borrowed mutably); "
+                     "every enqueue lies between the lock() and the drop of its guard")
+    n = 0
+    for b in ctx.facts.fn_bodies():
+        fl = ctx.flow(b)
+        for bb in range(b.n):
+            if b.is_cleanup(bb):
+                continue
+            for i, s_ in enumerate(b.stmts(bb)):
+                if s_["k"] != "assign":
+                    continue
+                places = []
+                rv = s_["rv"]
+                if rv["k"] in ("ref", "rawptr", "discr"):
+                    places.append((rv["place"], rv.get("mut", False), rv["k"]))
+                for pl, mut, kind in places:
+                    if pl["p"] and pl["p"][-1]["k"] == "field" and pl["p"][-1]["ty"].startswith("spin::mutex::SpinMutex<"):
+                        n += 1
+                        ok = kind == "ref" and not mut
+                        uses = fl.uses_of_local(s_["place"]["l"]) if not s_["place"]["p"] else []
+                        sinks = []
+                        for ub, ui, node in uses:
+                            if ui == "term" and node["k"] == "call" and node["func"]["k"] == "const":
+                                nm = fn_name(node["func"]["fn"]) or ""
+                                sinks.append(nm.split("::")[-1])
+                                if not re.search(r"spin::mutex::SpinMutex::<.*>::lock$", nm):
+                                    ok = False
+                            else:
+                                ok = False
+                                sinks.append("non-call use")
+                        ctx.ob("R3.9", b, "flag-accessed-only-through-lock#%d" % n, ok, b.loc(bb, i), "borrow %s%s -> %s" % (kind, " mut" if mut else "", sinks))
+        # enqueue inside the guard region
+        for ebb, et, efn in direct_sites(b, RE_ENQUEUE):
+            locks = [(lb, lt) for lb, lt, lfn in R.flag_lock_sites(b) if b.dominates(lb, ebb)]
+            ok = False
+            for lb, lt in locks:
+                g = lt["dest"]["l"]
+                drops = [db for db in range(b.n) if b.term(db)["k"] == "drop" and not b.is_cleanup(db) and b.term(db)["place"]["l"] == g and not b.term(db)["place"]["p"]]
+                if drops and not any(b.dominates(db, ebb) for db in drops):
+                    ok = True
+            ctx.ob("R3.9", b, "enqueue-under-the-slot-lock@%s" % _site_label(b, ebb), ok, b.loc(ebb))
+    ctx.floor("R3.9", "flag-field-borrows", n, 3)
+
+
 def run(ctx):
     R = roles(ctx)
     R.pop_fn, R.vt
@@ -557,3 +602,4 @@ def run(ctx):
     r3_6(ctx, R)
     r3_7(ctx, R)
     r3_8(ctx, R)
+    r3_9(ctx, R)
